@@ -44,9 +44,14 @@ PROBES = {"exists", "is_file", "is_dir", "resolve", "stat", "lstat", "is_symlink
 
 
 def _check_resolver(repo, res, fq):
-    f = repo.func(fq)
+    from ..normalize import nfunc as _nfunc22
+
+    f0 = repo.func(fq)
+    # private helpers inlined (a `_relative_template_path(name)` that validates the name and
+    # hands back the path is read as part of the resolver)
+    f = _nfunc22(repo, f0, aliases=False)
     node = f.node
-    params = [p for p in f.params() if p != "self"]
+    params = [p for p in f0.params() if p != "self"]
     if len(params) != 1:
         res.add("C22-GUARD", fq, "signature", f"{fq}: expected (self, template_name)", f.file, f.line)
         return
@@ -74,7 +79,9 @@ def _check_resolver(repo, res, fq):
     # binding of that variable (`relative_path = str(template_path)` hoisted out of the loop)
     derived = {}
     stores = {}
-    for st in walk_no_nested(node):
+    order = {}
+    for i_, st in enumerate(walk_no_nested(node)):
+        order[id(st)] = i_  # source order of the (possibly inlined) statements
         if isinstance(st, ast.Assign) and len(st.targets) == 1 and isinstance(st.targets[0], ast.Name):
             stores.setdefault(st.targets[0].id, []).append(st)
     for name, sts in stores.items():
@@ -83,7 +90,7 @@ def _check_resolver(repo, res, fq):
         v = unwrap_await(sts[0].value)
         if isinstance(v, ast.Call) and is_name(v.func, "str") and len(v.args) == 1:
             v = v.args[0]
-        if isinstance(v, ast.Name) and v.id in stores and all(x.lineno < sts[0].lineno for x in stores[v.id]):
+        if isinstance(v, ast.Name) and v.id in stores and all(order[id(x)] < order[id(sts[0])] for x in stores[v.id]):
             derived[name] = v.id
 
     def var_of(e):
